@@ -37,9 +37,37 @@ _lock = threading.Lock()
 _unit_locks = {}
 
 
-def sh(cmd, timeout=None, cwd=None, env=None, mem_gb=None):
-    """run; returns (rc, stdout, stderr, wall, maxrss_kb); rc=-9 on timeout"""
+def sh(cmd, timeout=None, cwd=None, env=None, mem_gb=None, cancel=None):
+    """run; returns (rc, stdout, stderr, wall, maxrss_kb); rc=-9 on timeout; rc=-8 if cancelled through the event"""
     t0 = time.time()
+    if cancel is not None:
+        import tempfile
+        fo, fe = tempfile.TemporaryFile(), tempfile.TemporaryFile()
+        pre = None
+        if mem_gb:
+            import resource
+
+            def pre():
+                resource.setrlimit(resource.RLIMIT_AS, (int(mem_gb * 2 ** 30), int(mem_gb * 2 ** 30)))
+        p = subprocess.Popen(cmd, stdout=fo, stderr=fe, cwd=cwd, env=env, preexec_fn=pre, start_new_session=True)
+        rc = None
+        while True:
+            rc = p.poll()
+            if rc is not None:
+                break
+            if cancel.is_set() or (timeout and time.time() - t0 > timeout):
+                try:
+                    os.killpg(p.pid, 9)
+                except Exception:
+                    p.kill()
+                p.wait()
+                rc = -8 if cancel.is_set() else -9
+                break
+            time.sleep(0.2)
+        fo.seek(0); fe.seek(0)
+        o, e = fo.read(), fe.read()
+        fo.close(); fe.close()
+        return rc, o.decode('utf-8', 'replace'), e.decode('utf-8', 'replace'), time.time() - t0, 0
     pre = None
     if mem_gb:
         import resource
@@ -302,7 +330,7 @@ def reduced_to_double_bits(v):
 
 
 def run_cbmc(u, harness, hdefs, unwind, unwindset, safety, timeout, witness=False, trace=True, solver=None,
-             mem_gb=None, extra=None, reduced=False):
+             mem_gb=None, extra=None, reduced=False, cancel=None):
     d = u['dir']
     cmd = ['cbmc', os.path.join(d, 'unit.c'), os.path.join(HARN, harness), '-I' + RT, '-I' + d, '-I' + HARN,
            '-I' + tables_dir(), '--function', 'fsv_harness'] + dflags(hdefs)
@@ -329,11 +357,14 @@ def run_cbmc(u, harness, hdefs, unwind, unwindset, safety, timeout, witness=Fals
         cmd += ['--z3']
     if extra:
         cmd += extra
-    rc, o, e, w, _ = sh(cmd, timeout=timeout, mem_gb=mem_gb)
+    rc, o, e, w, _ = sh(cmd, timeout=timeout, mem_gb=mem_gb, cancel=cancel)
     res = dict(cmd=' '.join(cmd), rc=rc, wall_s=round(w, 2), status=None, failed=[], props=0, trace_inputs=None, solver=solver or 'minisat',
                vccs=None, remaining=None, solver_s=None, errors=[])
     if rc == -9:
         res['status'] = 'TIMEOUT'
+        return res
+    if rc == -8:
+        res['status'] = 'CANCELLED'
         return res
     try:
         js = json.loads(o)
@@ -488,6 +519,28 @@ def run_query(q, prop, seed, outdir):
         def solve(witness):
             kw = dict(witness=witness, trace=not witness, mem_gb=q.mem_gb, extra=q.extra, reduced=q.reduced)
             saf = q.safety and not witness
+            if q.solver == 'race':
+                # SAT (cadical) and SMT (cvc5) side by side: cvc5 proves FP equalities by term sharing, SAT finds counter-examples fast
+                ev = threading.Event()
+                out = {}
+
+                def one(sv):
+                    rr = run_cbmc(u, q.harness, q.hdefs, q.unwind, q.unwindset, saf, q.timeout, solver=sv, cancel=ev, **kw)
+                    if rr['status'] in ('SUCCESS', 'FAILURE') and not ev.is_set():
+                        out.setdefault('win', rr)
+                        ev.set()
+                    out[sv] = rr
+                ts = [threading.Thread(target=one, args=(sv,)) for sv in ('cadical', 'cvc5')]
+                for t in ts:
+                    t.start()
+                for t in ts:
+                    t.join()
+                if 'win' in out:
+                    return out['win']
+                rr = out.get('cvc5') or out.get('cadical')
+                if rr['status'] == 'CANCELLED':
+                    rr['status'] = 'ERROR'
+                return rr
             if q.solver != 'auto':
                 return run_cbmc(u, q.harness, q.hdefs, q.unwind, q.unwindset, saf, q.timeout, solver=q.solver, **kw)
             r1 = run_cbmc(u, q.harness, q.hdefs, q.unwind, q.unwindset, saf, min(q.sat_cap, q.timeout), solver='cadical', **kw)
